@@ -60,6 +60,14 @@ word m4lint_ctl_S1(mzd_t const *A, mzd_t const *B) {
   return acc;
 }
 
+/* S1 (width step): row base pointer moved to the next row by the width instead of the rowstride */
+void m4lint_ctl_S1w(mzd_t *M) {
+  word *row = mzd_row(M, 0);
+  for (rci_t i = 0; i < M->nrows; ++i, row += M->width) {
+    for (wi_t j = 0; j + 1 < M->width; ++j) row[j] = ~row[j];
+  }
+}
+
 /* G1: static scratch state written outside the load-time constructor */
 int m4lint_ctl_G1(int x) {
   static int last;
